@@ -80,7 +80,11 @@ Start == /\ cons = {"unbuilt"}
          /\ LET st == Build(Seeds[seed]) IN s' = st /\ cons' = Consistent(AbstractOf(st)) /\ hf' = MaxOf(st.vd) + 1
          /\ UNCHANGED <<seed, hist>>
 
-Live == cons = {} /\ OK(s) /\ Len(hist) < MaxDepth
+\* operations are applied to proper cell complexes only (Trace_Edits.tla Proper): every cell has at least 3
+\* vertices, no doubled mesh edge
+ProperState(st) == /\ \A c \in DOMAIN st.C : Len(st.C[c]) >= 3
+                   /\ \A e, f \in DOMAIN st.E : e # f => {st.E[e][1], st.E[e][2]} # {st.E[f][1], st.E[f][2]}
+Live == cons = {} /\ OK(s) /\ Len(hist) < MaxDepth /\ ProperState(s)
 Do(o, st, nf) == /\ s' = st /\ hist' = Append(hist, o) /\ hf' = nf
                  /\ cons' = IF OK(st) THEN Consistent(AbstractOf(st)) ELSE {}
                  /\ UNCHANGED seed
